@@ -502,6 +502,64 @@ impl Gen<'_> {
     }
 }
 
+/// the programs of the `example`s / witnesses in `Props/C01Loop.lean`, run first on every run so
+/// that the streams shown there are the real compiler's
+fn fixed_stmt_programs() -> Vec<(&'static str, St, E)> {
+    let b = |e: E| Box::new(e);
+    let sb = |s: St| Box::new(s);
+    let seq = |items: Vec<St>| -> St {
+        let mut it = items.into_iter().rev();
+        let mut acc = it.next().unwrap();
+        for s in it {
+            acc = St::Seq(Box::new(s), Box::new(acc));
+        }
+        acc
+    };
+    let asg = |x: usize, n: i64| St::Expr(E::Assign(x, Box::new(E::Int(n))));
+    let inc = |x: usize, e: E| St::Expr(E::Compound("add", x, Box::new(e)));
+    let eq = |a: E, c: E| E::Cmp("eq", Box::new(a), Box::new(c));
+    // progCount
+    let count = seq(vec![
+        asg(0, 0),
+        asg(1, 0),
+        St::While(
+            E::Cmp("lt", b(E::Var(0)), b(E::Int(10))),
+            sb(seq(vec![
+                inc(0, E::Int(1)),
+                St::IfThen(eq(E::Var(0), E::Int(3)), sb(St::Continue)),
+                St::IfThen(eq(E::Var(0), E::Int(6)), sb(St::Break)),
+                inc(1, E::Var(0)),
+            ])),
+        ),
+    ]);
+    // progNested
+    let nested = seq(vec![
+        asg(0, 0),
+        asg(1, 0),
+        St::Until(
+            eq(E::Var(0), E::Int(3)),
+            sb(seq(vec![
+                asg(2, 0),
+                St::Loop(sb(seq(vec![
+                    St::Ite(eq(E::Var(2), E::Var(0)), sb(St::Break), sb(inc(2, E::Int(1)))),
+                    inc(1, E::Int(1)),
+                ]))),
+                inc(0, E::Int(1)),
+            ])),
+        ),
+    ]);
+    // progUnassignedRead: `if false then x = 1` ; `x`
+    let unassigned = seq(vec![St::IfThen(E::Bool(false), sb(asg(0, 1))), St::Expr(E::Var(0))]);
+    // progUnusedOperator: loop / 1 / 0 / break
+    let unused = St::Loop(sb(seq(vec![St::Expr(E::Bin("div", b(E::Int(1)), b(E::Int(0)))), St::Break])));
+    vec![
+        ("progCount", count, E::Var(1)),
+        ("progNested", nested, E::Var(1)),
+        ("progUnassignedRead", unassigned, E::Var(0)),
+        ("progUnusedOperator", unused, E::Null),
+    ]
+}
+
 fn canon_real(src: &str) -> Result<(String, i64), String> {
     // local_count from the AST's MainBlock
     let ast = Parser::parse(src).map_err(|e| format!("parse: {}", e))?;
@@ -676,6 +734,26 @@ fn main() {
     let ns = if args.thorough() { 60000 } else { 6000 };
     let mut sreqs = vec![];
     let mut scases = vec![];
+    for (name, prog, fin) in fixed_stmt_programs() {
+        let mut src = String::new();
+        st_render(&prog, 0, false, &mut src);
+        stmt(&fin, 0, &mut src);
+        match kvh::catch(|| canon_real(&src)) {
+            Ok(Ok((real, lc))) => {
+                rep.bump("stmt_fixed_witness_programs");
+                sreqs.push(format!("compileS {} {} {}", lc, st_sexp(&prog), sexp(&fin)));
+                scases.push((prog, src, real));
+            }
+            other => {
+                rep.violation(
+                    "K",
+                    "K2:C01:Model.CompileLoop.compileS+flattenL",
+                    json!({"input": src, "witness": name, "impl": format!("{:?}", other),
+                           "note": "a program of the examples in Props/C01Loop.lean no longer compiles to the modelled instruction set"}),
+                );
+            }
+        }
+    }
     for i in 0..ns {
         let nvars = 1 + rng.below(5);
         let mut g = Gen { rng: &mut rng, nvars, assigned: vec![false; nvars] };
